@@ -138,7 +138,7 @@ def eval_spec(spec, seen, objs):
     raise ValueError(spec)
 
 
-def node_raw(node, seen, objs):
+def node_raw(node, seen, objs, version=0):
     """Raw result of executing a node given the values its arguments see."""
     kind = node["kind"]
     if kind == "lit":
@@ -156,7 +156,7 @@ def node_raw(node, seen, objs):
     if kind == "call":
         args = [eval_spec(s, seen, objs) for s in node.get("args", ())]
         kwargs = [(nm, eval_spec(s, seen, objs)) for nm, s in node.get("kwargs", ())]
-        dig = call_digest(node["id"], args, kwargs)
+        dig = call_digest(node["id"], args, kwargs, version)
         ret = node.get("ret", "val")
         if ret == "val":
             return Val(node["id"], dig)
@@ -217,7 +217,7 @@ def evaluate(world, objs, sources=None):
                 raise Missing(name)
             seen_map[i] = norm(world, name, stores[name])
             continue
-        raw = node_raw(n, seen, objs)
+        raw = node_raw(n, seen, objs, world.get("_versions", {}).get(i, 0))
         if n.get("writes"):
             # side-effect writer: content derives from its own result digest
             stores[n["writes"]] = side_value(n, raw.dig if isinstance(raw, Val) else str(raw))
